@@ -86,7 +86,8 @@ def check(case):
     for bad_kw, why in (({'from_measure': -1}, 'negative start'), ({'from_measure': -1, 'to_measure': M}, 'negative start'),
                         ({'to_measure': M + 1}, 'end beyond M'), ({'from_measure': 1, 'to_measure': M + 1}, 'end beyond M'),
                         ({'from_measure': M, 'to_measure': M + 3}, 'end beyond M')) + \
-            tuple(({'from_measure': x, 'to_measure': x - 1}, 'end before start') for x in range(2, M + 1)):
+            tuple(({'from_measure': x, 'to_measure': x - 1}, 'end before start') for x in range(1, M + 1)) + \
+            (({'from_measure': M, 'to_measure': 0}, 'end before start'), ({'from_measure': 1, 'to_measure': -1}, 'end before start')):
         evals += 1
         try:
             r = kp.dumps(kdoc, **bad_kw, **kw)
